@@ -962,14 +962,18 @@ class Hydrodynamics:
         if vw**2 > self.thermodynamics.csqLowT(Tm):
             xi0T0 = [vw, Tm]
             vmcent = boostVelocity(vw, vm)
-            # Integrate the rarefaction wave
+            # Integrate the rarefaction wave. The output is sampled densely because
+            # xi(v) has a square-root behaviour where a hybrid's rarefaction wave
+            # starts (d xi/dv = 0 there): Simpson's rule on the few points chosen by
+            # the adaptive integrator is off by several percent.
             solRarefaction = solve_ivp(
                 self.shockDE,
                 [vmcent, 1e-10],
                 xi0T0,
                 rtol=self.rtol,
                 atol=0,
-                args=(False,)
+                args=(False,),
+                t_eval=np.linspace(vmcent, 1e-10, 1001),
             )  # solve differential equation all the way from v = v- to v = 0
             vPlasma = solRarefaction.t
             xi = solRarefaction.y[0]
